@@ -180,7 +180,7 @@ func init() {
 			"composite type into wrapAny — the class behind the confirmed internal-error panics (R-FIXED).",
 		NotDecided:  "Termination, index ranges, nil values that travel through fields, and that line/column are correct (position arithmetic is value-level).",
 		Assumptions: []string{"field-borne nils are not tracked"},
-		Rules:       []*Rule{ruleNilRet, ruleScopeType, ruleFixed, ruleLexBound, ruleIndexGuard, ruleProgress},
+		Rules:       []*Rule{ruleNilRet, ruleScopeType, ruleFixed, ruleConcrete, ruleLexBound, ruleIndexGuard, ruleProgress},
 	})
 	Register(&Property{
 		ID: "C04",
@@ -189,7 +189,7 @@ func init() {
 			"(R-ACCEPTWRAP); inference of a map literal's type does not depend on Go map order (R-MAPRANGE).",
 		NotDecided:  "The content of accepts/matches/combineTypes (which cells of the matrix are true) and the operand checks' predicates — value-level.",
 		Assumptions: []string{},
-		Rules:       []*Rule{ruleFixed, ruleAcceptWrap, ruleMapRange, ruleListUse},
+		Rules:       []*Rule{ruleFixed, ruleConcrete, ruleAcceptWrap, ruleMapRange, ruleListUse},
 	})
 	Register(&Property{
 		ID: "C06",
